@@ -33,7 +33,7 @@ BOUNDS = {"quick": "ranks: every double alpha in (0,1) x B in 2..12, 16, 20, 32,
                    "units with symbolic expected vote / partial margin / turnout factor; intervals: 10 reporting, 3 nonreporting, 1 unexpected "
                    "unit, B=2 with level pairs {0.5,0.9} {0.7,0.99} and B=3 with {0.7,0.99}, state + county / classification aggregates, margin draws symbolic, "
                    "turnout draws concrete",
-          "thorough": "ranks: B in 2..64 and a ladder to 2000; I_boot: up to (3,2); intervals: B up to 5, all level pairs"}
+          "thorough": "ranks: B in 2..64 and a ladder to 2000; I_boot: up to (3,2); intervals: B=3 with all level pairs, B=4 with {0.7, 0.99}"}
 OPTS = {"quick": dict(case_timeout_s=900, solver_timeout_ms=120000), "thorough": dict(case_timeout_s=3300, solver_timeout_ms=600000)}
 
 
@@ -50,11 +50,11 @@ def cases(tier):
         out.append(dict(name="iboot_B%d_n%d" % (B, nt), kind="iboot", B=B, n_test=nt, weight=40 * nt))
     # the non-default correct_from_presidential option shifts the bootstrapped margins before they are clipped
     out.append(dict(name="iboot_presidential_B2_n1", kind="iboot", B=2, n_test=1, presidential=True, weight=40))
-    for B in (2, 3) if tier == "quick" else (2, 3, 4, 5):
+    for B in (2, 3) if tier == "quick" else (2, 3, 4):
         for aggs in (["postal_code", "county_fips", "unit"], ["postal_code", "county_classification", "unit"]):
             for alphas in ([0.5, 0.9], [0.7, 0.99]):
-                if tier == "quick" and B == 3 and alphas[0] == 0.5:
-                    continue  # 5 min of z3 per case: thorough tier
+                if (tier == "quick" and B == 3 and alphas[0] == 0.5) or (B == 4 and alphas[0] == 0.5):
+                    continue  # B=3 with {0.5, 0.9}: 5 min of z3 per case (thorough tier); B=5 did not finish in 55 min
                 out.append(dict(name="intervals_B%d_%s_%s" % (B, aggs[1][:6], alphas[1]), kind="intervals", B=B, alphas=alphas,
                                 units=BS.margin_units(10, 3, 1), aggregates=aggs, weight=30 * B))
                 if "county_classification" in aggs:
